@@ -342,6 +342,7 @@ func (g *c12Gen) nextPathy() c12Op {
 			} else {
 				base.V = r.Intn(8)
 			}
+			g.r6ExtForm(&base)
 			return base
 		case k < 63:
 			base.K, base.X, base.N = "ExtDel", r.Intn(3), g.plainName()
